@@ -1612,6 +1612,7 @@ EXC_CLASSES = {"RecoverableError", "UnrecoverableError", "NotReadyError", "Defer
 EXC_PARENTS = {"FileNotFoundError": ("OSError", "IOError"), "IsADirectoryError": ("OSError", "IOError"), "ZeroDivisionError": ("ArithmeticError",),
                "UnicodeEncodeError": ("UnicodeError", "ValueError"), "UnicodeDecodeError": ("UnicodeError", "ValueError"),
                "IndexError": ("LookupError",), "KeyError": ("LookupError",), "OSError": ("IOError",), "IOError": ("OSError",),
+               "OverflowError": ("ArithmeticError",), "RecursionError": ("RuntimeError",), "NotImplementedError": ("RuntimeError",), "UnicodeError": ("ValueError",),
                "struct.error": ()}
 OPAQUE_ATTR = {}
 MODULE_OVERRIDES = {}
@@ -1837,11 +1838,12 @@ BUILTINS = {
     "repr": Builtin("repr", lambda eng, v: Opaque("repr")),
     "print": Builtin("print", lambda eng, *a, **k: eng.path.events.append(("print", "stderr" if "file" in k else "stdout"))),
     "chr": Builtin("chr", lambda eng, v: b_chr(eng, v)),
+    "reversed": Builtin("reversed", lambda eng, it: list(reversed(list(eng.iterate(it))))),
     "struct.unpack": Builtin("struct.unpack", lambda eng, fmt, data: b_struct_unpack(eng, fmt, data)),
 }
 for _n in ("Exception", "BaseException", "TypeError", "ValueError", "KeyError", "IndexError", "ZeroDivisionError", "IOError", "OSError",
            "FileNotFoundError", "IsADirectoryError", "UnicodeEncodeError", "UnicodeDecodeError", "NotImplementedError", "AssertionError",
-           "LookupError", "RecursionError"):
+           "LookupError", "RecursionError", "OverflowError", "ArithmeticError", "AttributeError", "MemoryError", "StopIteration", "RuntimeError", "UnicodeError"):
     BUILTINS[_n] = ExcName(_n)
 BUILTINS["struct.error"] = ExcName("struct.error")
 BUILTINS["SystemExit"] = ExcName("SystemExit")
@@ -1877,7 +1879,7 @@ class ByteBuf:
 
 strupper = z3.Function("strupper", z3.StringSort(), z3.StringSort())
 strlower = z3.Function("strlower", z3.StringSort(), z3.StringSort())
-SYMSTR_METHODS = {"isascii", "upper", "lower", "index", "find", "endswith", "startswith", "encode", "ljust", "rjust", "split", "rpartition", "partition"}
+SYMSTR_METHODS = {"count", "rfind", "isascii", "upper", "lower", "index", "find", "endswith", "startswith", "encode", "ljust", "rjust", "split", "rpartition", "partition"}
 
 class SymSplit:
     """s.split(sep) of a symbolic string: only the first and the last piece are modelled"""
@@ -1980,9 +1982,29 @@ def str_find(eng, s, x):
 
 
 strisascii = z3.Function("str_isascii", z3.StringSort(), z3.BoolSort())
+strrfind = z3.Function("str_rfind", z3.StringSort(), z3.StringSort(), z3.IntSort(), z3.IntSort(), z3.IntSort())
+strcount = z3.Function("str_count", z3.StringSort(), z3.StringSort(), z3.IntSort())        # number of non-overlapping occurrences: uninterpreted, with its range
 
 
 def symstr_method(eng, s, attr, a):
+    if attr == "count":
+        if len(a) != 1: raise Unsupported("str.count with start/end")
+        n_ = strcount(zstr(s), zstr(a[0]))
+        eng.assume(z3.And(n_ >= 0, n_ <= z3.Length(zstr(s))))
+        return n_
+    if attr == "rfind":
+        sub = zstr(a[0])
+        lo = a[1] if len(a) > 1 else 0
+        hi = a[2] if len(a) > 2 else z3.Length(zstr(s))
+        if known_len(sub) != 1: raise Unsupported("str.rfind of a needle that is not one character")
+        # stdlib contract (A5), for a one-character needle: the result is -1 and no position of s[lo:hi] holds the needle, or it is the
+        # LAST position of s[lo:hi] that holds it
+        r_ = strrfind(zstr(s), sub, lo, hi)
+        j_ = z3.Int("j!rfind")
+        eng.assume(z3.Or(r_ == -1, z3.And(r_ >= lo, r_ < hi, r_ < z3.Length(zstr(s)), z3.SubString(zstr(s), r_, 1) == sub)))
+        eng.assume(z3.ForAll([j_], z3.Implies(z3.And(j_ > r_, j_ >= lo, j_ < hi, j_ < z3.Length(zstr(s))), z3.SubString(zstr(s), j_, 1) != sub)))
+        eng.assumptions.add("str.rfind(one character, lo, hi) is external: an uninterpreted function with the documented contract (last position or -1)")
+        return r_
     if attr == "isascii":
         # uninterpreted predicate (like upper/lower): which characters it admits is the stdlib's business; contracts that need the link
         # discharge it by enumeration over the code points
@@ -2135,12 +2157,21 @@ def b_sum(eng, it, start=0):
     return r
 
 
+chrfn = z3.Function("chr", z3.IntSort(), z3.StringSort())
+
+
 def b_chr(eng, v):
+    v = eng.undyn(v)
     if is_sym(v):
+        # CPython: an argument that does not fit a C int is an OverflowError, one outside the code space a ValueError
+        if eng.branch(z3.Or(v < -2 ** 31, v >= 2 ** 31)): raise PyRaise(Exc("OverflowError"))
         if eng.branch(z3.Or(v < 0, v >= 0x110000)): raise PyRaise(Exc("ValueError"))
-        return Opaque("chr")
+        r = chrfn(v)
+        eng.assume(z3.Length(r) == 1)
+        return r
     try: return chr(v)
     except ValueError: raise PyRaise(Exc("ValueError"))
+    except OverflowError: raise PyRaise(Exc("OverflowError"))
 
 
 def b_struct_unpack(eng, fmt, data):
